@@ -1,5 +1,6 @@
 """C04 - inbound payments are claimable only if complete and authentic; all-or-nothing (structural part)."""
 from engine import *
+import obligations
 import ordimpls
 import provenance
 import re
@@ -411,3 +412,4 @@ RULES = [
 	('04.v', 'field-versus-field comparisons (a received value against a limit, an id against an id) are the reviewed ones: same fields, same operator (rules/provenance.py)', lambda F: provenance.cmps_for_property(F, 'C04', '04.v')),
 	('04.o', 'hand-written eq / cmp / partial_cmp / hash impls in this property\'s files: same field on both sides, reviewed direction, no reviewed key lost, hash within eq (rules/ordimpls.py)', lambda F: ordimpls.for_property(F, 'C04', '04.o')),
 ]
+RULES.append(('04.u', 'obligation-carrying values returned by workspace calls (to-fail HTLC lists, monitor updates, events, peer messages, claim packages) are never dropped on a path that does not examine them (rules/obligations.py)', lambda F: obligations.for_property(F, 'C04', '04.u')))
